@@ -323,7 +323,7 @@ def correspond_generators(ctx, exe, jobs):
 
 # ---------------------------------------------------------------- oracle sweep
 def oracle(ctx, pairs, seed_base=0):
-    fam, atm = {}, {}
+    fam, atm, nseq = {}, {}, {}
     for i, p in enumerate(pairs):
         fam[p.family] = fam.get(p.family, 0) + 1
         k = '%d->%d' % (G.atm_code(p.src), G.atm_code(p.dst)); atm[k] = atm.get(k, 0) + 1
@@ -341,19 +341,30 @@ def oracle(ctx, pairs, seed_base=0):
         if p.src.num_blocks <= 4000:
             case = {'kind': 'generators', 'geo': p.sspec, 'gseed': seed_base + i, 'rename': bool(i & 1), 'preserve': bool(i & 2)}
             O.check_generators_identity(ctx, case, p.src, O.identical_copy(p.sspec, p.src, ctx.repo))
+        if p.src.num_blocks + p.dst.num_blocks <= 4000:
+            # object history: compute mappings, then move / re-surface the same objects in place, evaluate again
+            r = random.Random(1000003 * (seed_base + 1) + i)
+            s2, d2 = G.build_geo(p.sspec, ctx.repo), G.build_geo(p.dspec, ctx.repo)
+            ms, md = G.moves(r, s2), G.moves(r, d2)
+            case = {'kind': 'sequence', 'family': p.family, 'src': p.sspec, 'dst': p.dspec,
+                    'then_src': [ms[i % len(ms)]], 'then_dst': ([md[(i // 3) % len(md)]] if (i // 3) % 4 else []),
+                    'nvar': 1 + i % 6, 'vseed': seed_base + i}
+            O.check_sequence(ctx, case, s2, d2, ctx.repo)
+            nseq[case['then_src'][0][0]] = nseq.get(case['then_src'][0][0], 0) + 1
     ctx.oracle_cases('block-mapping', len(pairs), families=fam, atmosphere_source_to_target=atm)
     ctx.oracle_cases('self-mapping-identity', len(pairs))
     ctx.oracle_cases('incon-transfer', len(pairs))
     ctx.oracle_cases('generator-transfer-identity', len(pairs))
+    ctx.oracle_cases('statement-after-in-place-moves', sum(nseq.values()), source_edit_after_first_mapping=nseq)
 
 
 # ---------------------------------------------------------------- run / replay
 def run(ctx):
-    ctx.rule = ('pairs (source, target) of real mulgrid geometries from 11 families (independent random rectangular grids over overlapping '
-                'regions; coarse/fine; a grid and its column refinement, both directions; layer refinement; shifted and renamed-convention copies; '
+    ctx.rule = ('pairs (source, target) of real mulgrid geometries from 12 family slots (independent random rectangular grids over overlapping '
+                'regions; coarse/fine; a grid and its column refinement, both directions; layer refinement; shifted and renamed-convention copies (one family always changes the convention, so atmosphere layer names differ); '
                 'copies with random column surfaces incl. exactly on layer bottoms; identical; shipped tests/mulgrid geometries (quick: g5, g1 once each, else g7; thorough: all seven) against themselves '
                 '(shifted) and against rectangular grids over their bounds), cycled through all 3x3 (source, target) atmosphere types, conventions 0-3 '
-                'at random, 1..6 primary variables, generators at top/bottom/interior blocks with and without tables, rename x preserve_totals; '
+                'at random, 1..6 primary variables, generators at top/bottom/interior/atmosphere blocks with and without tables, rename x preserve_totals; every small pair once more after the objects were moved / rotated / re-surfaced in place following a first mapping; '
                 'a case is distinct by its pair of geometry recipes and non-trivial when the target has underground blocks')
     ctx.trusted += ['Coq 8.16.1 kernel (coqc); vm_compute only for closed witnesses/examples; no native_compute',
                     'coq/C19/Transfer.v, Generators.v: hand-written model of mulgrid.column_mapping/layer_mapping/block_mapping, block naming, '
@@ -431,6 +442,8 @@ def replay(ctx, data):
     if kind == 'generators':
         g1 = G.build_geo(inp['geo'], ctx.repo); g2 = O.identical_copy(inp['geo'], g1, ctx.repo)
         O.check_generators_identity(ctx, inp, g1, g2)
+    elif kind == 'sequence':
+        O.check_sequence(ctx, inp, G.build_geo(inp['src'], ctx.repo), G.build_geo(inp['dst'], ctx.repo), ctx.repo)
     else:
         src = G.build_geo(inp['src'], ctx.repo); dst = G.build_geo(inp['dst'], ctx.repo)
         if kind == 'incon': O.check_incon(ctx, inp, src, dst, ctx.repo)
